@@ -14,6 +14,8 @@ pub enum Instr {
     CGet(&'static str),
     /// cset with the version (and a value derived from the value) of this actor's last cget
     CSetFromLast(&'static str),
+    /// cset with the version of the last cget that writes back the very value that was read
+    CSetSameValue(&'static str),
     /// cset with (current version + delta) computed from the actor's last cget
     CSetOffset(&'static str, i64),
     CSetAbs(&'static str, u64),
@@ -118,17 +120,21 @@ impl Scenario for CasScenario {
                             }
                         }
                     }
-                    Instr::CSetFromLast(k) | Instr::CSetOffset(k, _) | Instr::CSetAbs(k, _) => {
+                    Instr::CSetFromLast(k) | Instr::CSetSameValue(k) | Instr::CSetOffset(k, _) | Instr::CSetAbs(k, _) => {
                         let (lastv, lastver) = locals[a].last.get(k).cloned().unwrap_or((None, 0));
                         let carried = match instr {
-                            Instr::CSetFromLast(_) => lastver,
+                            Instr::CSetFromLast(_) | Instr::CSetSameValue(_) => lastver,
                             Instr::CSetOffset(_, d) => {
                                 if *d < 0 { lastver.saturating_sub(d.unsigned_abs()) } else { lastver.saturating_add(*d as u64) }
                             }
                             Instr::CSetAbs(_, v) => *v,
                             _ => unreachable!(),
                         };
-                        let newv = json!(lastv.and_then(|v| v.as_i64()).unwrap_or(0) + 1 + 1000 * (a as i64 + 1));
+                        let newv = if let (Instr::CSetSameValue(_), Some(v)) = (instr, &lastv) {
+                            v.clone()
+                        } else {
+                            json!(lastv.and_then(|v| v.as_i64()).unwrap_or(0) + 1 + 1000 * (a as i64 + 1))
+                        };
                         let res = core.wb.cset(k.to_string(), newv.clone(), carried, cid(c), false).await;
                         let km = model.entry(k).or_default();
                         let cur = km.version();
@@ -254,6 +260,18 @@ pub fn scenarios(tier: &str) -> Vec<(String, CasScenario)> {
                 vec![Instr::CGet("x"), Instr::CGet("y"), Instr::CSetFromLast("x"), Instr::CSetFromLast("y")],
                 vec![Instr::CGet("y"), Instr::CGet("x"), Instr::CSetFromLast("y"), Instr::CSetFromLast("x")],
                 vec![Instr::Delete("y")],
+            ],
+            setup_import: None,
+        },
+    ));
+    // value-preserving csets still consume the version
+    v.push((
+        "same-value".to_owned(),
+        CasScenario {
+            programs: vec![
+                vec![Instr::CGet("x"), Instr::CSetFromLast("x"), Instr::CGet("x"), Instr::CSetSameValue("x")],
+                vec![Instr::CGet("x"), Instr::CSetSameValue("x"), Instr::CGet("x"), Instr::CSetFromLast("x")],
+                vec![Instr::Set("x")],
             ],
             setup_import: None,
         },
